@@ -201,6 +201,10 @@ class Unit:
 
     def adt(self, suffix, optional=False):
         c = [a for p, a in self.adts.items() if p == suffix or p.endswith("::" + suffix)]
+        if not c and "::" in suffix:
+            # the type may have moved to another module of the crate (re-exported under the old name): retry by bare name
+            last = suffix.rsplit("::", 1)[1]
+            c = [a for p, a in self.adts.items() if p == last or p.endswith("::" + last)]
         if len(c) == 1:
             return c[0]
         if not c and optional:
@@ -1114,6 +1118,54 @@ class MirFn:
                 yield b["id"], b["term"]
 
 
+def sym_subst(s_, argmap):
+    """Replace ("arg", i, ..) leaves by argmap[i] (a callee's term re-expressed in its caller's frame)."""
+    if not isinstance(s_, tuple):
+        return s_
+    if s_ and s_[0] == "arg" and len(s_) > 1 and s_[1] in argmap:
+        return argmap[s_[1]]
+    return tuple(sym_subst(x, argmap) if isinstance(x, tuple) else x for x in s_)
+
+
+def sym_expand(unit, s_, depth=2):
+    """Rewrite calls of same-crate helpers by the value they return (a return slot with a single definition that depends on the
+    helper's parameters and constants only), the parameters substituted by the call's operands."""
+    if not isinstance(s_, tuple) or depth < 0:
+        return s_
+    if s_ and s_[0] == "call" and isinstance(s_[1], str):
+        args = tuple(sym_expand(unit, a, depth) for a in s_[2])
+        g = unit.fns.get(s_[1])
+        if g and g.get("mir") and "blocks" in g["mir"] and depth > 0:
+            mg = MirFn(g)
+            if len(mg.defs.get(0, [])) == 1:
+                r = mg.sym_local(0)
+                if all(l[0] not in ("local", "phi") for l in sym_leaves(r)) and not any(x[0] == "deep" for x in sym_walk(r)):
+                    return sym_expand(unit, sym_subst(r, {i + 1: a for i, a in enumerate(args)}), depth - 1)
+        return (s_[0], s_[1], args) + tuple(s_[3:])
+    return tuple(sym_expand(unit, x, depth) if isinstance(x, tuple) else x for x in s_)
+
+
+def ctor_aggs(unit, f, adt_suffix, depth=2):
+    """Constructions of the ADT a function performs: [(fn-containing-the-aggregate, stmt, {field: term in f's frame})].
+    Looks through same-crate constructor helpers (`Self::new(a, b)`), substituting the helper's parameters by the caller's operands."""
+    mf = MirFn(f)
+    out = []
+    for b in mf.mir["blocks"]:
+        for s_ in b["stmts"]:
+            if s_["k"] == "assign" and s_["rv"]["k"] == "agg" and (s_["rv"].get("adt") or "").endswith(adt_suffix):
+                out.append((f, s_, dict(zip(s_["rv"]["fnames"], [mf.sym_op(o) for o in s_["rv"]["ops"]]))))
+    if out or depth <= 0:
+        return out
+    for bb, t in mf.calls():
+        g = unit.fns.get(mir_callee(t) or "")
+        if not g or not g.get("mir") or "blocks" not in g["mir"] or g is f:
+            continue
+        argmap = {i + 1: mf.sym_op(a) for i, a in enumerate(t["args"])}
+        for gf, st, fields in ctor_aggs(unit, g, adt_suffix, depth - 1):
+            out.append((gf, st, {k: sym_subst(v, argmap) for k, v in fields.items()}))
+    return out
+
+
 def sym_show(s_):
     if not isinstance(s_, tuple):
         return str(s_)
@@ -1438,6 +1490,29 @@ def callees_transitive(unit, node, depth=2, _seen=None):
     return out
 
 
+def bodies_inl(unit, node, depth=1, exclude=(), max_nodes=1500):
+    """[node] + the bodies of the same-crate functions called below it (`depth` levels): the units in which an extracted construct can be
+    looked for together with the locals it uses (unlike walk_inl, which flattens caller and callee into one stream)."""
+    out, seen, frontier = [node], set(norm_path(e) for e in exclude), [node]
+    for _ in range(depth):
+        nxt = []
+        for b_ in frontier:
+            for x in walk(b_):
+                if x.get("k") in ("call", "mcall"):
+                    p_ = norm_path(x.get("p") or callee(x) or "")
+                    if p_ and p_.startswith(unit.crate + "::") and p_ not in seen:
+                        cal = unit.norm.get(p_)
+                        if cal and "hir" in cal and cal.get("dk") != "Closure":
+                            seen.add(p_)
+                            if "_nn" not in cal:
+                                cal["_nn"] = sum(1 for _ in walk(fn_body(cal)))
+                            if cal["_nn"] <= max_nodes:
+                                out.append(fn_body(cal))
+                                nxt.append(fn_body(cal))
+        frontier = nxt
+    return out
+
+
 def walk_inl(unit, node, depth=2, _seen=None, exclude=(), max_nodes=400):
     """Like walk(), but also descends into the bodies of same-crate functions called below `node` (up to `depth` levels): a rule that
     looks for a construct inside an anchor function keeps finding it after the construct was extracted into a private helper."""
@@ -1456,6 +1531,29 @@ def walk_inl(unit, node, depth=2, _seen=None, exclude=(), max_nodes=400):
                         continue   # a large callee is a dispatcher in its own right, not an extracted helper
                     for y in walk_inl(unit, fn_body(cal), depth - 1, _seen, max_nodes=max_nodes):
                         yield y
+
+
+def fns_inl(unit, f, depth=2, max_nodes=1500):
+    """f followed by the same-crate functions its body calls (transitively, `depth` levels): the places a construct of f may have been extracted to."""
+    out, seen = [f], {norm_path(f["path"])}
+    frontier = [f]
+    for _ in range(depth):
+        nxt = []
+        for g in frontier:
+            for x in walk(fn_body(g)):
+                if x.get("k") in ("call", "mcall"):
+                    p_ = norm_path(x.get("p") or callee(x) or "")
+                    if p_ and p_.startswith(unit.crate + "::") and p_ not in seen:
+                        cal = unit.norm.get(p_)
+                        if cal and "hir" in cal and cal.get("dk") != "Closure":
+                            seen.add(p_)
+                            if "_nn" not in cal:
+                                cal["_nn"] = sum(1 for _ in walk(fn_body(cal)))
+                            if cal["_nn"] <= max_nodes:
+                                out.append(cal)
+                                nxt.append(cal)
+        frontier = nxt
+    return out
 
 
 def with_conditions(node, stack=()):
@@ -1489,9 +1587,43 @@ def with_conditions(node, stack=()):
             for r in with_conditions(arm.get("b"), st2):
                 yield r
         return
+    if k == "block":
+        # statements after `if c { return / continue / panic }` run under the negation of c
+        st2 = stack
+        for stmt in list(node.get("s") or []) + ([node["e"]] if node.get("e") is not None else []):
+            for r in with_conditions(stmt, st2):
+                yield r
+            i = strip_keep_macro(stmt)
+            if isinstance(i, dict) and i.get("k") == "if":
+                td, ed = diverges(i.get("t")), (i.get("e") is not None and diverges(i.get("e")))
+                if td and not ed:
+                    st2 = st2 + (("if", i.get("c"), "e"),)
+                elif ed and not td:
+                    st2 = st2 + (("if", i.get("c"), "t"),)
+        return
     for c in children(node):
         for r in with_conditions(c, stack):
             yield r
+
+
+def with_conditions_inl(unit, node, stack=(), depth=2, _seen=None, max_nodes=1500):
+    """with_conditions() that also descends into same-crate functions called below `node`, the caller's condition stack carried along:
+    a guarded construct keeps its guard when it is extracted into a helper that is called under the guard (or that tests it itself)."""
+    _seen = _seen if _seen is not None else set()
+    for n, st in with_conditions(node, stack):
+        yield n, st
+        if depth > 0 and isinstance(n, dict) and n.get("k") in ("call", "mcall"):
+            p_ = norm_path(n.get("p") or callee(n) or "")
+            if p_ and p_.startswith(unit.crate + "::") and p_ not in _seen:
+                cal = unit.norm.get(p_)
+                if cal and "hir" in cal and cal.get("dk") != "Closure":
+                    _seen.add(p_)
+                    if "_nn" not in cal:
+                        cal["_nn"] = sum(1 for _ in walk(fn_body(cal)))
+                    if cal["_nn"] > max_nodes:
+                        continue
+                    for r in with_conditions_inl(unit, fn_body(cal), st, depth - 1, _seen, max_nodes):
+                        yield r
 
 
 class SubCheck:
